@@ -172,6 +172,9 @@ def check_shape(model, rep):
                 bad = f'with proposals {tag} the motor duty cycle is assigned {len(stores)} times'
             elif not stores[0][1].endswith('elements[0]'):
                 bad = f'the duty cycle is assigned to {stores[0][1]}, not to the motor elements[0]'
+            elif getattr(stores[0][3], 'py', None) == 'numpy':
+                bad = (f'with proposals {tag} the value handed to the duty-cycle setter is a numpy scalar (`{sx.show(stores[0][3])[:50]}`): for an int '
+                       f'proposal (ConstantPWM with 1, 0 or -1) that is a numpy.int64, which the setter\'s isinstance(float | int) test rejects with TypeError')
             if bad:
                 break
         if bad:
